@@ -106,8 +106,11 @@ def pairs(tier):
     seqs2 = [list(t) for t in itertools.product(variants, repeat=2)] + [[v] for v in variants]
     for a in seqs2:
         for b in seqs2:
-            if a != b and (len(a) == 2 or len(b) == 2):
+            if a != b:
                 out.append({'kind': 'json', 'a': a, 'b': b, 'opt': ['auto', 'on']})
+                # position-wise list edits (single-element lists under the defaults, any equal length with list edits off)
+                if len(a) == len(b) == 2:
+                    out.append({'kind': 'json', 'a': a, 'b': b, 'opt': ['auto', 'off']})
     for a, b in (('ab', 'ba'), ('abc', 'b'), ('a', 'bab'), ('aab', 'abb')):
         out.append({'kind': 'string', 'a': a, 'b': b, 'opt': ['auto', 'on']})
     xs = pairspace.xml_elements('quick')
@@ -115,7 +118,9 @@ def pairs(tier):
         for j in range(4, len(xs), 13):
             if xs[i] != xs[j]:
                 out.append({'kind': 'xml', 'a': xs[i], 'b': xs[j], 'opt': ['auto', 'on']})
-    for a, b in (([1, [1]], [[1], 1, 2]), ([1, 1, 2], [2, 1])):
+    # multisets (API only): also with an item that occurs several times of which the matcher pairs some copies only
+    for a, b in (([1, [1]], [[1], 1, 2]), ([1, 1, 2], [2, 1]), (['ab', 'ab', 'c'], ['ax', 'c']), (['ax', 'c'], ['ab', 'ab', 'c']),
+                 ([1, 1], [2]), (['ab', 'ab'], ['ax', 'ay', 'az']), ([[1], [1], 2], [[1, 2], 3])):
         out.append({'kind': 'multiset', 'a': a, 'b': b, 'opt': ['auto', 'on']})
     return out
 
